@@ -10,6 +10,14 @@ import (
 )
 
 func main() {
+	if len(os.Args) > 2 && os.Args[1] == "cold" {
+		var k int
+		fmt.Sscan(os.Args[2], &k)
+		if props.C14ColdMain(k) > 0 {
+			os.Exit(1)
+		}
+		return
+	}
 	bad := props.C14RaceMain(6)
 	fmt.Println("vrace done, differing results:", bad)
 	if bad > 0 {
